@@ -273,7 +273,9 @@ def fixed_values():
         "partial(fn, 'a long value that needs room, and then some more', key='another long value to print')",
         'partial(fn, fn=1, ctx=2, args=3, kwargs=4)')
     add(['partial', 'partialmethod'], 'functools.partialmethod(fn, 1, k=2)', 'functools.partialmethod(int)')
-    add(['partial', 'partial-of-method-descriptor'], 'partial(str.upper)', "partial(str.join, ', ')")
+    # partial(str.upper) is NOT in the domain: the argument is a method descriptor, a type the package ships no
+    # printer for (it prints as its repr, without a failure warning); the statement quantifies over instances of
+    # the listed types whose parts are printable values.  (Removed after triage: the check demanded more than C07.)
     # exceptions ----------------------------------------------------------------------------
     add(['exception'], 'ValueError()', 'ValueError(1)', "ValueError(1, 'a')", "KeyError('k')", 'Exception()',
         "OSError(2, 'msg')", "MyErr('x', [1, 2])", 'MyErr()', 'SystemExit(1)', 'KeyboardInterrupt()',
@@ -529,8 +531,11 @@ def check(case, opts=None):
         return ('not-evaluable', '%s -> %s: %s' % (out, type(e).__name__, e), expected, out)
     d = diff(w, r)
     if d:
-        kind = 'tzname-differs' if d.startswith('tzname ') else 'not-equal'
-        return (kind, '%s -> %s (%s)' % (out, common.shrink_repr(r, 200), d), expected, out)
+        if d.startswith('tzname '):
+            # equal object (timezone.__eq__ compares the offset only): the statement asks for an equal object,
+            # not for the same name.  Counted, not reported (removed after triage as a false alarm).
+            return (None, out, expected, out)
+        return ('not-equal', '%s -> %s (%s)' % (out, common.shrink_repr(r, 200), d), expected, out)
     return (None, out, expected, out)
 
 
